@@ -327,7 +327,11 @@ def run_neutral(case):
     res = {"evals": 0, "violations": [], "events": {}, "nontrivial": []}
     x = case["x"]
     if case["layout"] == "one":
-        atoms = build.build_peptide([x, "ALA", x])
+        # optionally a backbone atom of a terminal residue is missing from
+        # the input (rebuilt by the program): the terminus is still one
+        omit = {"N@n": {0: {"N"}}, "O@c": {2: {"O"}}, "OXT@c": {2: {"OXT"}},
+                "C@c": {2: {"C"}}}.get(case.get("omit"))
+        atoms = build.build_peptide([x, "ALA", x], omit=omit)
         ends = {1: "n", 3: "c"}
     elif case["layout"] == "tail":
         # the chain is followed by waters carrying its chain id
@@ -377,7 +381,9 @@ def run_neutral(case):
             continue
         _num, atoms_ = numbers(r, [])
         vres = per_res(atoms_)
-        res["nontrivial"].append(f"neutral:{x}:{case['layout']}:{tag}")
+        res["nontrivial"].append(f"neutral:{x}:{case['layout']}:{tag}"
+                                 + (":" + case["omit"] if case.get("omit")
+                                    else ""))
         changed = {k for k in set(bres) | set(vres) if bres.get(k) != vres.get(k)}
         allowed = {k for k, e in ends.items()
                    if (e == "n" and "--neutraln" in flags)
@@ -395,6 +401,24 @@ def run_neutral(case):
                 dq -= 1
             if e == "c" and "HO" in names_v and "HO" not in names_b:
                 dq += 1
+        # every terminus the option addresses is neutralised (an
+        # N-terminal proline has no third hydrogen to lose: no claim)
+        for k, e in sorted(ends.items()):
+            names_b = {n for n, *_ in bres.get(k, [])}
+            names_v = {n for n, *_ in vres.get(k, [])}
+            if e == "n" and "--neutraln" in flags and x != "PRO" \
+                    and "H3" in names_v:
+                res["violations"].append({
+                    "sig": f"C09/neutral/terminus-kept-charged/{tag}/n"
+                           + (f"/missing:{case['omit']}" if case.get("omit")
+                              else ""),
+                    "detail": {"x": x, "residue": k}})
+            if e == "c" and "--neutralc" in flags and "HO" not in names_v:
+                res["violations"].append({
+                    "sig": f"C09/neutral/terminus-kept-charged/{tag}/c"
+                           + (f"/missing:{case['omit']}" if case.get("omit")
+                              else ""),
+                    "detail": {"x": x, "residue": k}})
         total = sum(a["charge"] for a in atoms_)
         if abs((total - btotal) - dq) > 1e-3:
             res["violations"].append({
@@ -453,4 +477,7 @@ def enumerate_cases(tier, seed):
     for x in T.AMINO:
         for layout in ("one", "two", "hidden", "tail"):
             cases.append({"mode": "neutral", "x": x, "layout": layout})
+        for om in ("N@n", "O@c", "OXT@c", "C@c"):
+            cases.append({"mode": "neutral", "x": x, "layout": "one",
+                          "omit": om})
     return cases
